@@ -47,6 +47,16 @@ Theorem C04_balance_views_agree :
 Proof. exact balance_views_agree. Qed.
 Print Assumptions C04_balance_views_agree.
 
+(** READS.  At every reachable program point GetState(a,k) returns the reference's value of the
+    slot and GetCommittedState(a,k) the value the slot had when the transaction started — in
+    particular a reverted frame (with or without precompile calls) leaves no trace in either. *)
+Theorem C04_reads_see_reference :
+  forall (mx : Z) (t0 : store) (s : sdb) (r : rstate) (a : addr) (k : key),
+    reach mx t0 s r ->
+    read_vals s a k = match r_accs r a with Some _ => (r_stor r a k, stor t0 a k) | None => (0, 0) end.
+Proof. exact reads_see_reference_reach. Qed.
+Print Assumptions C04_reads_see_reference.
+
 (** CALL LIMIT.  When the counter has reached the limit, one more precompile call is refused:
     the state is (a refinement of) the state before the call, the counter still advances, and what
     Commit would write is unchanged. *)
